@@ -208,14 +208,15 @@ rule_r4 = effects.view_fallback(rule_r4)
 def run(ctx):
     facts = ctx.facts("default")
     fam = ctx.facts("family")
-    c02.rule_r2(facts, ctx, rule_id="C12.R1")
-    c02.rule_r4(facts, ctx, rule_id="C12.R1b")
+    sfacts = c02.stream_view(facts)      # the ring's entry points with their private helpers substituted in (no-op on today's tree)
+    c02.rule_r2(sfacts, ctx, rule_id="C12.R1")
+    c02.rule_r4(sfacts, ctx, rule_id="C12.R1b")
     # the remaining stream-side tag rules of C02: a stream that loses, duplicates or misplaces tags breaks every forwarder
-    c02.rule_r5(facts, ctx, rule_id="C12.S5")
-    c02.rule_r6(facts, ctx, rule_id="C12.S6")
-    c02.rule_r7(facts, ctx, rule_id="C12.S7")
-    c02.rule_r8(facts, ctx, rule_id="C12.S8")
-    c02.rule_r9(facts, ctx, rule_id="C12.S9")
+    c02.rule_r5(sfacts, ctx, rule_id="C12.S5")
+    c02.rule_r6(sfacts, ctx, rule_id="C12.S6")
+    c02.rule_r7(sfacts, ctx, rule_id="C12.S7")
+    c02.rule_r8(sfacts, ctx, rule_id="C12.S8")
+    c02.rule_r9(sfacts, ctx, rule_id="C12.S9")
     for rid, n in (("C12.S5", 1), ("C12.S6", 2), ("C12.S7", 1), ("C12.S8", 1), ("C12.S9", 1)):
         ctx.floor(rid, n, "same floor as C02.R%s" % rid[-1])
     c19.rule_work(fam, ctx, only={"C12.R2"})
